@@ -121,6 +121,8 @@ def showErr : PErr → String
   | .endifNotMatched => "EndIfNotMatched"
   | .notFinished => "ConditionChainNotFinished"
   | .badCondition => "BadCondition"
+  | .elseAfterElse => "ElseAfterElse"
+  | .elifAfterElse => "ElifAfterElse"
 
 def hasDup : List String → Bool
   | [] => false
